@@ -25,6 +25,7 @@ import LogosModel.Assemble
 import LogosModel.LogosItems
 import LogosModel.Generics
 import LogosModel.TypeSubst
+import LogosModel.Panic
 import LogosModel.Utf8Enc
 import LogosModel.Look.Utf8ClosedC
 import Std.Data.HashMap
@@ -644,6 +645,30 @@ def genericsAnswer (args : List String) : String :=
     s!"src={TypeItems.sourceLt s} bounds={",".intercalate (TypeItems.bounds s)} generics={",".intercalate ga} errs={s.errs} herrs={TypeItems.headerErrs s}"
   | _ => "BADQ"
 
+/-! ## C14 / C15: a call of `next` whose callback panics (Panic.lean) -/
+
+/-- "CPANIC <hexsrc> <nexts>": `nexts` calls of next, then one call in which every callback invocation panics;
+answers what that call did and the span afterwards -/
+def cpanicAnswer (c : Case) (hexsrc nexts : String) : String :=
+  let src := unhex hexsrc
+  let att := walkAttempt c.graph false src
+  let fuel := src.length + 2
+  let rec warm (k : Nat) (pos : Nat) : Option Nat :=
+    match k with
+    | 0 => some pos
+    | k + 1 => match nextLoop att c.cb c.utf8 src fuel pos with
+      | .item it => warm k it.stop
+      | .none _ e => warm k e
+      | .diverge => none
+  match warm nexts.toNat! 0 with
+  | none => "DIVERGE"
+  | some pos =>
+    match nextLoopP att c.cb (fun l _ _ => c.cbs.getD l 0 != 0) c.utf8 src fuel pos with
+    | .panic s e => s!"panic {s} {e}"
+    | .res (.item it) => s!"item {it.start} {it.stop}"
+    | .res (.none s e) => s!"none {s} {e}"
+    | .res .diverge => "DIVERGE"
+
 /-! ## C19: substitution of concrete types (TypeSubst) -/
 
 /-- a type in prefix notation: `p<i>` a parameter, `c<name>/<k>` a constructor with `k` kids -/
@@ -926,6 +951,9 @@ partial def run (h : IO.FS.Stream) (out : IO.FS.Stream) (cur : Case) (tbl : Std.
     run h out cur tbl
   | "Q" :: "IGNOREGRP" :: toks =>
     out.putStrLn s!"{cur.name} IGNOREGRP {" ".intercalate toks} : {ignoreGrpAnswer toks}"
+    run h out cur tbl
+  | ["Q", "CPANIC", hexsrc, nexts] =>
+    out.putStrLn s!"{cur.name} CPANIC {hexsrc} {nexts} : {cpanicAnswer cur hexsrc nexts}"
     run h out cur tbl
   | "Q" :: "TYSUBST" :: args =>
     out.putStrLn s!"{cur.name} TYSUBST {" ".intercalate args} : {tysubstAnswer args}"
